@@ -15,6 +15,7 @@ package props
 
 import (
 	"bytes"
+	"context"
 	"fmt"
 	"math/big"
 	"runtime/debug"
@@ -429,6 +430,40 @@ func c14CheckBlock(o *Outcome, n *c14Node, idx *indexer.KVIndexer, be *backend.B
 			if gu.ToInt().Uint64() != admitted[len(admitted)-1].Cumulative {
 				o.label("block-gas-used-differs-from-eth-sum") // block gas also counts Cosmos txs: informational only
 			}
+		}
+	})
+	// by-hash views agree with by-number views
+	c14Guard(o, "by-hash views", func() {
+		rb, err := n.f.Block(context.Background(), &h)
+		if err != nil {
+			return
+		}
+		hash := common.BytesToHash(rb.BlockID.Hash)
+		if cnt := be.GetBlockTransactionCountByNumber(rpctypes.BlockNumber(h)); cnt == nil || int(*cnt) != len(admitted) {
+			o.dev("", "GetBlockTransactionCountByNumber(%d) = %v, consensus Ethereum view has %d txs", h, cnt, len(admitted))
+		}
+		if cnt := be.GetBlockTransactionCountByHash(hash); cnt == nil || int(*cnt) != len(admitted) {
+			o.dev("", "GetBlockTransactionCountByHash(block %d) = %v, consensus Ethereum view has %d txs", h, cnt, len(admitted))
+		}
+		blk, err := be.GetBlockByHash(hash, false)
+		if err != nil || blk == nil {
+			o.dev("", "GetBlockByHash(block %d) = %v, %v", h, blk, err)
+		} else if txs, _ := blk["transactions"].([]interface{}); len(txs) != len(admitted) {
+			o.dev("", "GetBlockByHash(block %d) lists %d txs, consensus Ethereum view has %d", h, len(txs), len(admitted))
+		}
+		for _, e := range admitted {
+			tx, err := be.GetTransactionByBlockHashAndIndex(hash, hexutil.Uint(e.EthIndex))
+			if err != nil || tx == nil || tx.Hash != e.Hash {
+				o.dev("", "block %d: GetTransactionByBlockHashAndIndex(%d) does not return tx %s (got %v, %v)", h, e.EthIndex, e.Hash.Hex(), tx, err)
+			}
+		}
+		byHash, err1 := be.GetLogs(hash)
+		byNum, err2 := be.GetLogsByHeight(&h)
+		if (err1 == nil) != (err2 == nil) || len(byHash) != len(byNum) {
+			o.dev("", "block %d: GetLogs(hash) and GetLogsByHeight disagree (%d vs %d groups, errs %v / %v)", h, len(byHash), len(byNum), err1, err2)
+		}
+		if unknown, err := be.GetBlockByHash(common.BigToHash(big.NewInt(0xbeef)), true); err == nil && unknown != nil {
+			o.dev("", "GetBlockByHash(unknown hash) returns a block")
 		}
 	})
 	c14Guard(o, "GetLogsByHeight", func() {
